@@ -202,9 +202,14 @@ def tree_flatten_upto(treedef, tree):
 
 
 def tree_transpose(outer, inner, tree):
-    """jax.tree_util.tree_transpose: tree has structure outer(inner(leaf)); result inner(outer(leaf))"""
+    """jax.tree_util.tree_transpose: the tree is flattened completely; only the NUMBER of leaves is checked
+    against outer x inner (as JAX does), then leaves are regrouped by position"""
+    from .interp import AbstractRaise
     no, ni = outer.num_leaves, inner.num_leaves
-    subtrees = tree_flatten_upto(outer, tree)
-    rows = [tree_flatten_upto(inner, s) for s in subtrees]
-    cols = [[rows[i][j] for i in range(no)] for j in range(ni)]
+    flat = tree_leaves(tree)
+    if len(flat) != no * ni:
+        raise AbstractRaise(TypeError(f"tree_transpose: Mismatch, {len(flat)} leaves for an outer structure with {no} "
+                                      f"and an inner structure with {ni} leaves"))
+    lol = [[flat[i * ni + j] for j in range(ni)] for i in range(no)]
+    cols = [[lol[i][j] for i in range(no)] for j in range(ni)]
     return inner.unflatten([outer.unflatten(c) for c in cols])
